@@ -82,6 +82,27 @@ def work_unpicklable(x):
     return lambda: x
 
 
+class _RefusesOS:
+    def __reduce__(self):
+        raise FileNotFoundError(2, 'no such file', '/nonexistent')
+
+
+class _RefusesValue:
+    def __reduce__(self):
+        raise ValueError('cannot be pickled')
+
+
+def work_unpicklable_os(x):
+    """The result's serialisation fails with an OSError."""
+    _mark('work_unpicklable_os', x)
+    return [x, _RefusesOS()]
+
+
+def work_unpicklable_value(x):
+    _mark('work_unpicklable_value', x)
+    return {'k': _RefusesValue()}
+
+
 def work_catch_soft(x):
     """Catches the soft limit and still returns a value."""
     from billiard.exceptions import SoftTimeLimitExceeded
